@@ -1293,11 +1293,23 @@ Qed.
 Lemma at_input_init d : at_input d (new_lexer d) [] d.
 Proof. split; [apply html_inv_init|]. split; [reflexivity|]. split; reflexivity. Qed.
 
+(* without delimiters HasTemplate() is false after every call *)
+Lemma run_no_tmpl_has : forall n l tr, run no_tmpl n l = Ok tr -> Forall (fun r => lhas (snd r) = false) tr.
+Proof.
+  induction n as [|k IH]; intros l tr H; cbn [run] in H; [injection H as <-; constructor|].
+  destruct (next no_tmpl l) as [r| |] eqn:En; cbn [rbind] in H; try discriminate.
+  destruct (run no_tmpl k (snd r)) as [rest| |] eqn:Er; cbn [rbind] in H; try discriminate.
+  injection H as <-. constructor; [exact (next_no_tmpl_has l r En)|exact (IH _ _ Er)].
+Qed.
+
 Lemma html_wellformed_tokens_proof : forall items, wf_doc items ->
   exists tr, run no_tmpl (length (doc_obs items) + 1) (new_lexer (doc_bytes items)) = Ok tr /\
-             map observe tr = doc_obs items ++ [mkObs ErrorT [] [] []].
+             map observe tr = doc_obs items ++ [mkObs ErrorT [] [] []] /\
+             Forall (fun r => lhas (snd r) = false) tr.
 Proof.
   intros items Hwf. set (d := doc_bytes items).
+  cut (exists tr, run no_tmpl (length (doc_obs items) + 1) (new_lexer d) = Ok tr /\ map observe tr = doc_obs items ++ [mkObs ErrorT [] [] []]).
+  { intros (tr & Hr & Ho). exists tr. split; [exact Hr|]. split; [exact Ho|exact (run_no_tmpl_has _ _ _ Hr)]. }
   destruct (lexes_doc items d (new_lexer d) [] (at_input_init d) eq_refl eq_refl eq_refl Hwf) as (l' & (tr & Hr & Ho & Hf & Hat)).
   cbn [app] in Hat. destruct Hat as (Hinv & Hcl & Hd & Hp). rewrite app_nil_r in Hd. subst d. clear Hd.
   destruct (html_eof_sticky_step_proof no_tmpl _ l' cfg_ok_no_tmpl Hinv Hp) as (l2 & Hn2 & Hinv2 & Hp2 & _).
@@ -1317,9 +1329,12 @@ Lemma html_wellformed_cut_ws_proof : forall items name attrs tws, wf_doc items -
   (exists h, to_hash (map lower name) = Ok h /\ is_xml_hash h = false) -> all_ws tws -> wf_attrs attrs tws ->
   let d := doc_bytes items ++ 60 :: name ++ concat (map attr_bytes attrs) ++ tws in
   let os := doc_obs items ++ mkObs StartTagT (60 :: map lower name) (map lower name) [] :: map attr_obs attrs in
-  exists tr, run no_tmpl (length os + 1) (new_lexer d) = Ok tr /\ map observe tr = os ++ [mkObs ErrorT [] [] []].
+  exists tr, run no_tmpl (length os + 1) (new_lexer d) = Ok tr /\ map observe tr = os ++ [mkObs ErrorT [] [] []] /\
+             Forall (fun r => lhas (snd r) = false) tr.
 Proof.
   intros items name attrs tws Hwf Hnp Hn1 Hn2 Hhx Hws Hattrs d os.
+  cut (exists tr, run no_tmpl (length os + 1) (new_lexer d) = Ok tr /\ map observe tr = os ++ [mkObs ErrorT [] [] []]).
+  { intros (tr & Hr & Ho). exists tr. split; [exact Hr|]. split; [exact Ho|exact (run_no_tmpl_has _ _ _ Hr)]. }
   set (X := 60 :: name ++ concat (map attr_bytes attrs)).
   assert (Ed : d = doc_bytes items ++ X ++ tws ++ []).
   { unfold d, X. rewrite app_nil_r. cbn [app]. rewrite <- app_assoc. reflexivity. }
